@@ -28,6 +28,13 @@ def decode(r: Reader):
     for _ in range(n):
         k = r.rng(1, 16)
         t = []
+        coherent = r.u8()
+        if coherent & 1:
+            # whole team at one corner (team sums / variances at their extremes)
+            mu = [-20.0, 20.0, 0.0, 20.0][(coherent >> 1) % 4] * beta
+            sg = [1e-4, 0.2, 10.0, 1e-4][(coherent >> 3) % 4] * beta
+            teams.append([[mu, sg] for _ in range(k)])
+            continue
         for _ in range(k):
             ms = r.pick(MU_SPECIAL)
             mu = (ms if ms is not None else -20.0 + 40.0 * r.unit()) * beta
@@ -75,6 +82,7 @@ def encode_simple(kind_idx, teams_units, ranks):
     w.u8(n - 2)
     for t in teams_units:
         w.u8(len(t) - 1)
+        w.u8(0)  # not a coherent-corner team
         for mu_u, lg in t:
             w.u8(0)
             w.unit((mu_u + 20.0) / 40.0)
